@@ -998,6 +998,10 @@ func runE2(tr E2Trace, props map[string]bool) pbt.Result {
 		fmt.Printf("SETUP cfg=%+v\n jcs=%s\n", tr.Cfg, b)
 		r.w.API.OnEntry = append(r.w.API.OnEntry, func(e *sim.Entry) {
 			fmt.Printf("      ledger %s %s %s %s applied=%v removed=%v force=%v err=%.80s\n", e.Actor, e.Verb, e.Res, e.Key, e.Applied, e.Removed, e.Force, e.Err)
+			if j, ok := e.After.(*execution.Job); ok && e.Applied && e.Actor != "user" {
+				b, _ := json.Marshal(j.Status)
+				fmt.Printf("        -> rv=%s status=%s\n", j.ResourceVersion, b)
+			}
 		})
 	}
 	for i, op := range tr.Ops {
